@@ -84,7 +84,7 @@ class VDT(dt.datetime):
 
 def setup(opts):
     # (not `run.datetime = VDT`: the name may be bound to the datetime MODULE in another spelling of the imports)
-    patchall.patch_attr(dt, "datetime", VDT)   # wherever else the package reads the clock: the class under any name,
+    patchall.patch_attr(dt, "datetime", VDT, later_imports=True)   # wherever else the package reads the clock: the class under any name,
     #                                        or the datetime module itself under any name (import datetime as dt)
 
 
